@@ -16,9 +16,9 @@ MANIFEST = {
     "category": "proof",
     "technique": "contract-based deductive verification: the real per-image MultiImage operations (flatten leading axes -> vmap -> restore) executed with independent symbolic sizes for every leading axis; post-condition MI.op(x)[t][lead.., rest] == single_op(x[t][lead..])[rest] discharged by z3; model-level vmap clause: assumed JAX contract + bounded native stand-in",
     "text": "For times_group_element, norm, average_pool, get_component / batch_get_component (and to_images with enumerated channel counts) the multi-image operation is executed on blocks with 0-3 leading axes of independent symbolic sizes, non-square symbolic extents and several tensor types, and proved element-wise equal to the single-image definition applied to exactly the image at the same leading index: nothing from another batch entry, channel or type can enter. The component-index mapping (type, channel, tensor component) is proved as documented. Tests use equal sizes and one or two leading axes.",
-    "note": "the clause 'a model applied through vmap returns per entry what it returns alone' rests on the assumed contract vmap(f)(X)[i] = f(X[i]); its ginjax side (no batch statistics on the equivariant path) is covered by the bounded native stand-in (replace / permute the other batch entries); to_images iterates channels in Python (channel counts enumerated); average_pool goes through the convolution contract of C04",
+    "note": "the clause 'a model applied through vmap returns per entry what it returns alone' rests on the assumed contract vmap(f)(X)[i] = f(X[i]); its ginjax side (no batch statistics on the equivariant path) is an obligation on the real constructors / __call__ of every equivariant architecture (no layer with cross-sample state in the object graph; a state handed in comes back untouched and is never read) plus the bounded native stand-in (replace / permute the other batch entries); to_images iterates channels in Python (channel counts enumerated); average_pool goes through the convolution contract of C04",
 }
-FUNCTIONS = ["MultiImage.times_group_element", "MultiImage.norm", "MultiImage.average_pool", "MultiImage.get_component", "MultiImage.batch_get_component",
+FUNCTIONS = ["models.ConvBlock / ResNet / DilResNet / UNet (equivariant): constructors and __call__ (no cross-sample state)", "MultiImage.times_group_element", "MultiImage.norm", "MultiImage.average_pool", "MultiImage.get_component", "MultiImage.batch_get_component",
              "MultiImage.to_images", "functional_geometric_image.norm", "functional_geometric_image.average_pool", "functional_geometric_image.times_group_element"]
 TRUSTED = ["CPython for the concrete part", "structured-array engine", "z3", "vmap contract vmap(f)(X)[i] = f(X[i]) (assumed, JAX)",
            "act_spec (C02) as the single-image action"]
@@ -54,6 +54,14 @@ def jobs(tier):
                     if D == 3 and len(sig) == 3 and q:
                         continue
                     out.append(("gvc.props.c14", "ob_average_pool", dict(D=D, nlead=nlead, sig=sig)))
+    from . import c07
+    seen_arch = set()
+    for c in c07.configs(tier):
+        key = (c["arch"], c.get("group_norm"), c["D"]) if q else None
+        if q and key in seen_arch:
+            continue
+        seen_arch.add(key)
+        out.append(("gvc.props.c14", "ob_model_no_batch_state", dict(cfg=c)))
     return out
 
 
@@ -274,4 +282,63 @@ def ob_average_pool(D, nlead, sig):
               lambda: all_paths(pre, lambda: Gm.MultiImage(dict(blocks), D, True).average_pool(2),
                                 lambda r: cmp_blocks(r, spec, D, True, list(sig), "average_pool")), structure)
     o["replay"] = dict(scenario="avgpool", D=D, nlead=nlead, model=o.get("model"))
+    return [o]
+
+
+def ob_model_no_batch_state(cfg):
+    """ginjax side of the clause 'a model applied through vmap returns per entry what it returns alone' (the vmap contract
+    vmap(f)(X)[i] = f(X[i]) itself is assumed): on the equivariant path the real model built by the real constructor is a
+    function of its own input only -- its object graph holds no layer with cross-sample state (no BatchNorm / LayerWrapperAux,
+    no `axis_name`), and a state object handed in as `batch_stats` comes back as that same object (never read, never replaced),
+    for symbolic channel counts, depth and extents."""
+    from . import nets
+    from .. import lib as _lib
+    M = load()
+    G, Ml = M["ginjax.geometric"], M["ginjax.ml.layers"]
+    D = cfg["D"]
+    name = f"C14/model[{cfg['arch']}]/" + ",".join(f"{k_}={cfg[k_]}" for k_ in sorted(cfg) if k_ not in ("arch",)) + "/ensures:no-cross-sample-state"
+
+    def body():
+        undo = nets.install()
+        S = nets.Session(D, None)
+        nets.SESSION[0] = S
+        try:
+            sym.reset(pre=[], todo=[])
+            pre = sym.CTX.path
+            model, X, info = nets.build_model(cfg, None, pre)
+            seen, stack, bad = set(), [("model", model)], []
+            while stack:
+                path, x = stack.pop()
+                if id(x) in seen:
+                    continue
+                seen.add(id(x))
+                if isinstance(x, _lib._Any) and "BatchNorm" in x._n:
+                    bad.append(f"{path}: {x._n}")
+                if type(x).__name__ in ("LayerWrapperAux", "BatchNorm"):
+                    bad.append(f"{path}: {type(x).__name__}")
+                if isinstance(x, _lib.Module):
+                    for n_, v in vars(x).items():
+                        if n_ == "axis_name" and v is not None:
+                            bad.append(f"{path}.{n_} = {v!r}")
+                        if n_ == "batch_norm" and v is not None:
+                            bad.append(f"{path}.{n_} is set on the equivariant path")
+                        stack.append((f"{path}.{n_}", v))
+                elif isinstance(x, (list, tuple)):
+                    stack += [(f"{path}[{i}]", v) for i, v in enumerate(x)]
+                elif isinstance(x, dict):
+                    stack += [(f"{path}[{k_!r}]", v) for k_, v in x.items()]
+            if bad:
+                return "refuted", "layer with cross-sample state on the equivariant path: " + "; ".join(bad[:3]), None
+            sentinel = _lib.Poison("batch_stats") if hasattr(_lib, "Poison") else object()
+            out = model(G.MultiImage(dict(X), D, info["flags"]), sentinel)
+            if not (isinstance(out, tuple) and len(out) == 2):
+                return "refuted", f"model(x, state) does not return (y, state): {type(out).__name__}", None
+            if out[1] is not sentinel:
+                return "refuted", f"the state handed to an equivariant model is not returned unchanged: {out[1]!r}", None
+            return "proved", f"{len(seen)} objects scanned; state passed through untouched (any use of it raises)", None
+        finally:
+            undo()
+            nets.SESSION[0] = None
+    o = guard(name, "ensures", body, dict(cfg))
+    o["replay"] = dict(scenario="vmap")
     return [o]
